@@ -15,6 +15,7 @@ import Lattigo.Model.Decomp
   decomp Q P hasP levelQ levelP nbPi d p0Q prevQ           -> rowsQ|rowsP
   decompntt N Q gQ P gP levelQ levelP nbPi size isNTT c2   -> rowsQ|rowsP/…  rlwe.Evaluator.DecomposeNTT (one pair per digit)
   divci / moddownnttci / decompnttci      same as div (4 NTT kinds) / moddownntt / decompntt on a conjugate-invariant ring (NthRoot = 4N)
+  evalmoddown ci N Q gQ P gP levelQ levelP+1 qpNTT ctNTT pQ pP -> ct|ctQP.Q after|ctQP.P after   rlwe.Evaluator.ModDown, one polynomial
   mask w mask p1                          -> vec                    ring.MaskVec
   extsmall q0 P levelP row0               -> rows                   ringqp ExtendBasisSmallNormAndCenter
   extsmallntt N q0 g0 P gP levelP row0    -> rows                   rlwe.ExtendBasisSmallNormAndCenterNTTMontgomery
@@ -80,6 +81,16 @@ def handle (toks : List String) : String :=
       | some ds => "/".intercalate (ds.map fun (a, b) => s!"{showRows a}|{showRows b}")
       | none => "panic"
     | _, _, _, _, _, _, _, _, _, _, _ => badOp
+  | ["evalmoddown", ci, n, Q, gQ, P, gP, lq, lp, qpNTT, ctNTT, pQ, pP] =>
+    -- lp = levelP + 1 (0 = Go's levelP = -1)
+    match ci.toNat?, n.toNat?, parseVec? Q, parseVec? gQ, parseVec? P, parseVec? gP, lq.toNat?, lp.toNat?, qpNTT.toNat?, ctNTT.toNat?, parseMat? pQ, parseMat? pP with
+    | some ci, some n, some Q, some gQ, some P, some gP, some lq, some lp, some qpNTT, some ctNTT, some pQ, some pP =>
+      let F := if ci != 0 then Scaling.xfCI else Scaling.xfStd
+      let mk := if ci != 0 then Scaling.mkTabsCI else Scaling.mkTabs
+      let r := BasisExt.evalModDown F (mk n Q gQ) (mk n P gP) Q P lq (if lp = 0 then none else some (lp - 1))
+        (qpNTT != 0) (ctNTT != 0) pQ pP
+      s!"{showRows r.1}|{showRows r.2.1}|{showRows r.2.2}"
+    | _, _, _, _, _, _, _, _, _, _, _, _ => badOp
   | ["div", kind, n, qs, gs, level, nb, p0] =>
     match n.toNat?, parseVec? qs, parseVec? gs, level.toNat?, nb.toNat?, parseMat? p0 with
     | some n, some qs, some gs, some level, some nb, some p0 => divOp kind n qs gs level nb p0
